@@ -389,6 +389,10 @@ fn rand_prob(rng: &mut Rng) -> String {
 
 /// number of checkpoints consumed and nodes before/after when `op` (a budgeted token with `_:_`) runs after `prefix`
 fn measure(n: usize, prefix: &[String], op_unlimited: &str) -> Option<(usize, usize, usize)> {
+    if std::env::var("KVERIF_NO_EXEC").is_ok() {
+        // requests-only mode (the code under test kills the process): do not run it here either; sweep a fixed range
+        return Some((16, 2, 14));
+    }
     let mut s = Sess::new(n);
     for t in prefix {
         if let Step::Bad = s.tok(t) {
